@@ -177,6 +177,23 @@ def judge(ck, sp, x):
                      "distribution", x=float(x[j]), p=float(p[j]), observed=float(y[j]),
                      expected=float(yt[j]), tol=float(tol[j]), n_bad=int(bad.sum()), desc=desc)
         return
+    # location/scale families: compare on the standardised scale, i.e. relative to the *width* of the
+    # target (a relative tolerance on the raw output is blind to width errors of narrow targets)
+    tol_mono = tol
+    if sp.get("stdz") is not None:
+        z = sp["stdz"]
+        with np.errstate(all="ignore"):
+            u, ref, tz = z["obs"](y), z["ref"](x), z["tol"](x)
+        ck.hit("width_points", x.size)
+        badz = ~(np.abs(u - ref) <= tz)
+        if np.any(badz):
+            j = int(np.argmax(np.where(badz, np.abs(u - ref) / np.maximum(tz, 1e-300), 0)))
+            ck.violation(f"{key}:width", f"{key}: standardised output (y - location)/width differs from the "
+                         "standardised quantile of the documented distribution", x=float(x[j]),
+                         observed=float(np.ravel(u)[j]), expected=float(np.ravel(ref)[j]),
+                         tol=float(np.ravel(tz + 0 * u)[j]), n_bad=int(badz.sum()), desc=desc)
+            return
+        tol_mono = np.minimum(tol, z["back"](tz) + 0 * tol)
     # per-element parameters: every grid point has its own target distribution
     perelem = any(np.ndim(v) > 0 for v in list(dist.args) + list(dist.kwds.values()))
     ck.hit("perelement_pairs" if perelem else "monotone_checks")
@@ -185,7 +202,7 @@ def judge(ck, sp, x):
         ck.violation(f"{key}:monotone", f"{key} is not monotone non-decreasing",
                      x=[float(x[j]), float(x[j + 1])], y=[float(y[j]), float(y[j + 1])], desc=desc)
     # strict monotonicity where the oracle separates neighbours by more than the tolerances
-    sep = np.diff(yt) > 4 * (tol[1:] + tol[:-1])
+    sep = np.diff(yt) > 4 * (tol_mono[1:] + tol_mono[:-1])
     if not perelem and np.any(sep & ~(np.diff(y) > 0)):
         ck.violation(f"{key}:monotone", f"{key} is not strictly increasing where it must be", desc=desc)
     # inverse
@@ -229,6 +246,41 @@ def judge(ck, sp, x):
 
 
 # ------------------------------------------------------------------------ builders
+def stdz_normal(mean, std):
+    return dict(obs=lambda y: (y - mean) / std, ref=lambda x: x,
+                tol=lambda x: 1e-9 * np.abs(x) + 16 * EPS * (np.abs(mean) / std + np.abs(x) + 1),
+                back=lambda tz: tz * std)
+
+
+def stdz_lognormal(lm, ls):
+    med = np.exp(lm)
+    return dict(obs=lambda y: y / med - 1.0, ref=lambda x: np.expm1(ls * x),
+                tol=lambda x: (1e-9 * np.abs(np.expm1(ls * x))
+                               + 16 * EPS * (1 + np.abs(lm) + np.abs(ls * x)) * (1 + np.abs(np.expm1(ls * x)))),
+                back=lambda tz: tz * med)
+
+
+def stdz_uniform(a, b):
+    a, b = np.asarray(a, float), np.asarray(b, float)
+    w = b - a
+    return dict(obs=lambda y: (y - a) / w, ref=lambda x: ndtr(x),
+                tol=lambda x: 1e-9 + 16 * EPS * ((np.abs(a) + np.abs(b)) / w + 1) + 0 * x,
+                back=lambda tz: tz * w)
+
+
+def corner(rng):
+    """extreme-but-valid parameter corner (about a third of the cases)"""
+    return rng.random() < 0.33
+
+
+def lu_ratio(rng, size=None):
+    """sigma/mean of a log-normal: half of the draws sweep down to 1e-10"""
+    if rng.random() < 0.5:
+        v = 10.0 ** rng.uniform(-10.0, -2.0, size)
+        return float(f"{v:.4g}") if size is None else np.array([float(f"{t:.4g}") for t in v])
+    return lu(rng, 1e-2, 3.0, size)
+
+
 def parshape(rng):
     """scalar or per-element (G,) parameters"""
     return None if rng.random() < 0.6 else G
@@ -249,7 +301,8 @@ def b_re_normal(S, rng):
     sd, jft, jnp = S["sd"], S["jft"], S["jnp"]
     n = parshape(rng)
     mean = np.round(rng.standard_normal(n) * lu(rng, 1e-2, 1e2), 4) if n else float(np.round(rng.standard_normal() * lu(rng, 1e-2, 1e2), 4))
-    std = lu(rng, 1e-3, 1e3, n)
+    cor = corner(rng)
+    std = lu(rng, 1e-8, 1e8, n) if cor else lu(rng, 1e-3, 1e3, n)
     via = ["fn", "model", "model_named"][int(rng.integers(0, 3))]
     m_, s_ = (jnp.asarray(mean), jnp.asarray(std)) if n else (mean, std)
     if via == "fn":
@@ -265,7 +318,8 @@ def b_re_normal(S, rng):
     return dict(key="re:normal_prior", fn=fn, dist=stats.norm(mean, std), mode="exact",
                 abs_scale=np.abs(mean), inv=lambda y: np.asarray(inv(jnp.asarray(y))),
                 inv_cond=lambda x, y: 8 * EPS * (np.abs(mean) / std + 1 + np.abs(x)),
-                desc=dict(t="re:normal", via=via, mean=np.ravel(mean)[:2].tolist(), std=np.ravel(std)[:2].tolist(), arr=bool(n)),
+                stdz=stdz_normal(mean, std),
+                desc=dict(t="re:normal", via=via, corner=bool(cor), mean=np.ravel(mean)[:2].tolist(), std=np.ravel(std)[:2].tolist(), arr=bool(n)),
                 default=False)
 
 
@@ -273,8 +327,8 @@ def b_re_lognormal(S, rng):
     from scipy import stats
     sd, jft, jnp = S["sd"], S["jft"], S["jnp"]
     n = parshape(rng)
-    mean = lu(rng, 1e-3, 1e3, n)
-    std = mean * lu(rng, 1e-2, 3.0, n)
+    mean = lu(rng, 1e-6, 1e6, n) if corner(rng) else lu(rng, 1e-3, 1e3, n)
+    std = mean * lu_ratio(rng, n)
     std = np.array([float(f"{t:.4g}") for t in std]) if n else float(f"{std:.4g}")
     ls = np.sqrt(np.log1p((std / mean) ** 2))
     lm = np.log(mean) - 0.5 * ls ** 2
@@ -292,8 +346,8 @@ def b_re_lognormal(S, rng):
     return dict(key="re:lognormal_prior", fn=fn, dist=stats.lognorm(s=ls, scale=np.exp(lm)), mode="exact",
                 inv=lambda y: np.asarray(inv(jnp.asarray(y))),
                 inv_cond=lambda x, y: 8 * EPS * (np.abs(lm) + np.abs(np.log(np.maximum(y, 1e-300)))) / ls,
-                moments=("re", mean, std),
-                desc=dict(t="re:lognormal", via=via, mean=np.ravel(mean)[:2].tolist(), std=np.ravel(std)[:2].tolist(), arr=bool(n)),
+                moments=("re", mean, std), stdz=stdz_lognormal(lm, ls),
+                desc=dict(t="re:lognormal", via=via, ratio=float(np.min(std / mean)), mean=np.ravel(mean)[:2].tolist(), std=np.ravel(std)[:2].tolist(), arr=bool(n)),
                 default=False)
 
 
@@ -306,8 +360,10 @@ def b_re_uniform(S, rng):
         a, b = 0.0, 1.0
     else:
         a = np.round(rng.standard_normal(n) * lu(rng, 1e-2, 1e2), 4) if n else float(np.round(rng.standard_normal() * lu(rng, 1e-2, 1e2), 4))
-        w = lu(rng, 1e-3, 1e3, n)
+        w = lu(rng, 1e-6, 1e6, n) if corner(rng) else lu(rng, 1e-3, 1e3, n)
         b = np.round(a + w, 6) if n else float(np.round(a + w, 6))      # documented: python floats
+        if np.any(np.asarray(b) <= np.asarray(a)):
+            b = a + w
     via = ["fn", "model_named", "vector"][int(rng.integers(0, 3))]
     if n and via == "vector":
         via = "fn"
@@ -319,16 +375,61 @@ def b_re_uniform(S, rng):
         call = sd.uniform_prior(a_, b_)
         fn = lambda x: re_eval(S, call, x, via)
     return dict(key="re:uniform_prior", fn=fn, dist=stats.uniform(a, np.asarray(b) - np.asarray(a)),
-                mode="exact", abs_scale=np.abs(a) + np.abs(b),
+                mode="exact", abs_scale=np.abs(a) + np.abs(b), stdz=stdz_uniform(a, b),
                 desc=dict(t="re:uniform", via=via, a=np.ravel(a)[:2].tolist(), b=np.ravel(b)[:2].tolist(), arr=bool(n)),
                 default=default)
+
+
+UNI_SPECIAL = [(-0.5, 0.5), (2.0, 3.0), (-1.0, 0.0), (0.1, 1.1), (0.0, 1.0), (-3.0, -2.0), (-5.0, -2.0),
+               (-7.5, -7.25), (1.0, 2.0), (0.0, 2.0), (0.0, 0.5), (-1.0, 1.0), (1e6, 1e6 + 1.0), (-0.25, 0.75)]
+
+
+def b_re_uniform_special(S, rng):
+    """"special" bound pairs: width exactly 1 with / without offset, negative ranges, and every
+    accepted type of the bounds (python float / int, numpy scalar, 0-d and (G,) arrays)"""
+    from scipy import stats
+    sd, jft, jnp = S["sd"], S["jft"], S["jnp"]
+    if rng.random() < 0.6:
+        a, b = UNI_SPECIAL[int(rng.integers(0, len(UNI_SPECIAL)))]
+    else:
+        a = 0.25 * float(rng.integers(-40, 41))
+        b = a + [1.0, 1.0, 2.0, 0.5][int(rng.integers(0, 4))]
+    typ = ["float", "float", "int", "npfloat", "array", "jnp0", "mixed"][int(rng.integers(0, 7))]
+    if typ in ("int", "mixed") and not (float(a).is_integer() and float(b).is_integer()):
+        typ = "float"
+    if typ == "float":
+        a_, b_ = float(a), float(b)
+    elif typ == "int":
+        a_, b_ = int(a), int(b)
+    elif typ == "mixed":
+        a_, b_ = float(a), int(b)
+    elif typ == "npfloat":
+        a_, b_ = np.float64(a), np.float64(b)
+    elif typ == "jnp0":
+        a_, b_ = jnp.asarray(float(a)), jnp.asarray(float(b))
+    else:
+        a_, b_ = jnp.full((G,), float(a)), jnp.full((G,), float(b))
+    vias = ["fn", "model_named", "model"] + (["vector"] if typ in ("float", "int", "mixed", "jnp0") else [])
+    via = vias[int(rng.integers(0, len(vias)))]
+    if via == "model_named":
+        mdl = jft.UniformPrior(a_, b_, name="k", shape=(G,))
+        fn = lambda x: np.asarray(mdl({"k": jnp.asarray(x)}))
+    elif via == "model":
+        mdl = jft.UniformPrior(a_, b_, shape=(G,))
+        fn = lambda x: np.asarray(mdl(jnp.asarray(x)))
+    else:
+        call = sd.uniform_prior(a_, b_)
+        fn = lambda x: re_eval(S, call, x, via)
+    return dict(key="re:uniform_prior", fn=fn, dist=stats.uniform(a, b - a), mode="exact",
+                abs_scale=abs(a) + abs(b), stdz=stdz_uniform(a, b), default=(a == 0.0 and b == 1.0 and typ == "float"),
+                desc=dict(t="re:uniform", special=True, via=via, a=a, b=b, typ=typ))
 
 
 def b_re_laplace(S, rng):
     from scipy import stats
     sd, jft, jnp = S["sd"], S["jft"], S["jnp"]
     n = parshape(rng)
-    al = lu(rng, 1e-3, 1e3, n)
+    al = lu(rng, 1e-8, 1e8, n) if corner(rng) else lu(rng, 1e-3, 1e3, n)
     via = ["fn", "model_named", "vector"][int(rng.integers(0, 3))]
     if n and via == "vector":
         via = "fn"
@@ -352,12 +453,13 @@ def ig_g(a):
 def b_re_invgamma(S, rng):
     from scipy import stats
     sd, jft, jnp = S["sd"], S["jft"], S["jnp"]
-    a = lu(rng, 0.5, 50.0)
+    cor = corner(rng)
+    a = lu(rng, 0.2, 200.0) if cor else lu(rng, 0.5, 50.0)
     step = [1e-2, 1e-2, 2e-2, 5e-2][int(rng.integers(0, 4))]
     r = rng.random()
     loc = 0.0 if r < 0.6 else (lu(rng, 1e-2, 1e2) if r < 0.93 else -lu(rng, 1e-2, 1.0))
     n = parshape(rng) if loc == 0.0 else None
-    scale = lu(rng, 1e-3, 1e3, n)
+    scale = lu(rng, 1e-6, 1e6, n) if cor else lu(rng, 1e-3, 1e3, n)
     via = ["fn", "model_named"][int(rng.integers(0, 2))]
     s_ = jnp.asarray(scale) if n else scale
     if via == "fn":
